@@ -34,6 +34,14 @@ def installer():
 
 def make(kind, name, scratch=None):
     import klepto.archives as KA
+    if '/' in name and kind in ('file', 'filejson', 'dir', 'dirjson', 'dirfast'):
+        import klepto._archives as A_
+        try:
+            A_.os.makedirs(A_.os.path.dirname(name))        # (model file system while the stubs are installed)
+        except OSError:
+            pass
+    if '/' in name and kind == 'sqlfile':
+        return KA.sqltable_archive('sqlite:///%s/db2.sqlite?table=%s' % (scratch, name.split('/')[-1]), cached=False)
     if kind == 'dict':
         return KA.dict_archive(name, cached=False)
     if kind == 'null':
@@ -122,7 +130,11 @@ class Arch:
         u = UNIVERSE[kind]
         return u[ctx.choice(len(u), 'ki')]
 
+    VALUE_WITNESSES = ('007', '1e3', '', 1.5, None, b'\x00\xff')    # what a typed column or a truth test could mangle
+
     def V(self, ctx):
+        if self.cfg.get('valwit'):
+            return self.VALUE_WITNESSES[ctx.choice(len(self.VALUE_WITNESSES), 'vw')]
         a = ctx.atom(ValSort, 'v')
         return a.tag if (ctx.concrete() and 'json' in self.cfg['kind']) else a
 
@@ -356,8 +368,7 @@ class Arch:
                 DC[kk] = vv
                 self.contents(ctx, c, DC, dict(info, pre='copy written'), label='copy-independent')
                 self.contents(ctx, a, D, dict(info, pre='original after write to copy'), label='copy-independent')
-        if op == 'eq' and others:
-            b, DB = others[0]
+        for b, DB in (others if op == 'eq' else []):
             try:
                 r = (a == b)
                 nr = (a != b)
@@ -381,6 +392,8 @@ class Arch:
             return self.fn_persist(ctx)
         if self.cfg.get('scenario') == 'alias':
             return self.fn_alias(ctx)
+        if self.cfg.get('scenario') == 'slash':
+            return self.fn_slash(ctx)
         kind = self.cfg['kind']
         a = make(kind, 'memo', self.scratch)
         D = {}
@@ -392,6 +405,10 @@ class Arch:
             b[bk] = bv
             DB[bk] = bv
         others = [(b, DB)]
+        if kind in PERSISTENT or kind == 'sql':
+            # a third archive whose *name* has the same last component (another directory / another in-memory database)
+            c3 = make(kind, 'elsewhere/memo', self.scratch) if kind != 'sql' else make(kind, 'memo')
+            others.append((c3, {}))
         # symbolic write prefix (pre-state through the public API)
         for i in range(self.cfg['prefix']):
             w = ctx.choice(3, 'w')
@@ -430,6 +447,32 @@ class Arch:
         a[k2] = v2
         D = {k1: v1, k2: v2}
         self.contents(ctx, a, D, {'op': 'set', 'pre': 'two keys %r %r' % (type(k1).__name__, type(k2).__name__)}, label='no-alias')
+
+    def fn_slash(self, ctx):
+        """a str key with a path separator: listing is a known finding, but what was stored under it must still be there"""
+        kind = self.cfg['kind']
+        a = make(kind, 'memo', self.scratch)
+        k = ('src/main.py', 'a/b')[ctx.choice(2, 'sk')]
+        v = self.V(ctx)
+        info = {'op': 'set', 'pre': 'key with a path separator'}
+        try:
+            a[k] = v
+            got = a[k]
+            has = k in a
+        except (PathPruned, Inconclusive):
+            raise
+        except Exception as e:
+            ctx.check(False, 'C03:no-exception', dict(info, kind='raised %s' % type(e).__name__))
+            return
+        ctx.check(got == v, 'C03:result', dict(info, kind='wrong value returned'))
+        ctx.check(has, 'C03:membership', dict(info, kind='membership differs'))
+        b = make(kind, 'memo', self.scratch)
+        try:
+            ctx.check(b[k] == v, 'C04:fresh-handle', dict(info, kind='contents differ from the dict oracle'))
+        except (PathPruned, Inconclusive):
+            raise
+        except Exception as e:
+            ctx.check(False, 'C04:fresh-handle', dict(info, kind='fresh handle raised %s' % type(e).__name__))
 
     def fn_persist(self, ctx):
         """C04: what a fresh handle sees"""
@@ -554,6 +597,8 @@ def plan(prop, tier):
         kw['name'] = 'arch/%s/%s/prefix%d/ops%d%s%s' % (kw.get('scenario', 'refine'), kind, kw.get('prefix', 0), kw.get('nops', 0),
                                                        '/first=' + '+'.join(kw['first']) if kw.get('first') else '',
                                                        '/how=' + kw['how'] if kw.get('how') else '')
+        if kw.get('valwit'):
+            kw['name'] += '/value-witnesses'
         if kw.get('canary'):
             kw['name'] = 'canary:' + kw['name']
         cfgs.append(kw)
@@ -571,11 +616,20 @@ def plan(prop, tier):
                     add(kind, prefix=1, nops=2, first=[op], weight=20)
         for kind in ('dir', 'sql', 'file'):
             add(kind, scenario='alias')
+        for kind in ('dir', 'dirjson'):
+            add(kind, scenario='slash')
+        for kind in ('sql',):
+            for op in ('set', 'getitem', 'items', 'pop'):
+                add(kind, prefix=1, nops=1, first=[op], valwit=True, weight=3)
         add('file', prefix=1, nops=1, first=['set'], canary=True)
     elif prop == 'C04':
         for kind in PERSISTENT:
             for how in ('ctor', 'state', 'copy', 'pickle', 'early'):
                 sym = kind in SYMBOLIC_KEYS
                 add(kind, scenario='persist', how=how, prefix=(3 if q else 4) if sym else (2 if q else 3), weight=1 if sym else 5)
+        for kind in ('sqlfile', 'dirjson', 'filejson'):
+            add(kind, scenario='persist', how='ctor', prefix=1, valwit=True, weight=5)
+        for kind in ('dir', 'dirjson'):
+            add(kind, scenario='slash')
         add('file', scenario='persist', prefix=1, canary=True)
     return cfgs
